@@ -338,10 +338,10 @@ Section ConjLeaves.
                                 keyj j (fn_anc y) = Some (fn_id y)).
     { intros l y Hl Hy Hm. unfold fmatch in Hm. apply andb_true_iff in Hm as [Hm _]. apply names_eqb_eq in Hm.
       assert (Hd := flatten_depth docs y Hy). rewrite Hm, (Hall l Hl) in Hd. fold j in Hd.
-      destruct (wf_head F W y Hy) as (rest & E). rewrite E in *. cbn in Hd. inversion Hd as [Hd'].
-      rewrite <- Hd'. apply keyj_top. }
+      destruct (wf_head F W y Hy) as (rest & E). rewrite E in Hd |- *. cbn [length] in Hd.
+      assert (Ej : j = length rest) by lia. rewrite Ej. apply keyj_top. }
     split; [rewrite Ecs; apply sorted_filter, child_sorted|]. split.
-    - intros m Hm. apply HM in Hm. specialize (Hm l0 Hl0). apply in_child in Hm as (y & Hy & E & _). eauto.
+    - intros m Hm. pose proof (proj1 (HM m) Hm l0 Hl0) as Hm2. apply in_child in Hm2 as (y & Hy & E & _). eauto.
     - intros p Hp. split.
       + intros (m & Hm & Hr). assert (Hm' := proj1 (HM m) Hm).
         destruct (proj1 (in_child l0 m) (Hm' l0 Hl0)) as (y0 & Hy0 & <- & Hm0).
@@ -381,7 +381,10 @@ Section ConjLeaves.
         + intros (m & Hm & E). rewrite (Hplain eq_refl m Hm) in E. inversion E; subst. exact Hm. }
     destruct HR as [HRs HRm].
     unfold sem_nested. unfold F at 1, flatten. rewrite root_table_pairs. fold pairs.
-    rewrite <- (sd_pairs_snd docs 0) at 2. fold pairs.
+    assert (Ed : filter (fun d => sat (QConj (map leafq leaves)) (dtree d) 0) docs
+                 = filter (fun d => sat (QConj (map leafq leaves)) (dtree d) 0) (map snd pairs))
+      by (unfold pairs; now rewrite sd_pairs_snd).
+    rewrite Ed.
     apply assemble; [apply sd_pairs_sorted|exact HRs|].
     intro r. rewrite HRm. split.
     - intros (m & Hm & Hr). destruct (HF m Hm) as (y & Hy & <-).
@@ -430,12 +433,16 @@ Section ConjLeaves.
       + apply (finish (raw_inter cs) false); [apply inter_out_ok, Hall|].
         intros _ m Hm. destruct (inter_out_ok Hall) as (_ & HF & _). destruct (HF m Hm) as (y & Hy & <-).
         (* no nested path at all: the matches are parents *)
-        rewrite Hunc in Hu. destruct first_leaf as (l0 & ls & El).
+        assert (Hex : existsb (fun p : list bytes => negb (is_nil p)) (map l_rest leaves) = false)
+          by (first [symmetry; exact Hunc | rewrite <- Hunc; exact Hu]).
+        destruct first_leaf as (l0 & ls & El).
         assert (HP0 : P = []).
         { assert (Hl0 : In l0 leaves) by (rewrite El; left; auto).
-          rewrite <- (Hall l0 Hl0). apply Bool.not_true_iff_false in Hu.
-          destruct (l_rest l0) eqn:E0; [reflexivity|]. exfalso. apply Hu. apply existsb_exists.
-          exists (l_rest l0). split; [apply in_map, Hl0|now rewrite E0]. }
+          rewrite <- (Hall l0 Hl0).
+          destruct (l_rest l0) eqn:E0; [reflexivity|]. exfalso.
+          assert (Ht : existsb (fun p : list bytes => negb (is_nil p)) (map l_rest leaves) = true).
+          { apply existsb_exists. exists (l_rest l0). split; [apply in_map, Hl0|now rewrite E0]. }
+          congruence. }
         assert (Hm' : forall l, In l leaves -> In (fn_id y) (raw_term F (l_rest l) (l_f l) (l_t l))).
         { intros l Hl. assert (Hm2 := Hm). unfold cs in Hm2. rewrite El in Hm2. cbn [map raw_inter] in Hm2.
           apply filter_In in Hm2 as [H0 Hr]. rewrite El in Hl. destruct Hl as [<-|Hl]; [exact H0|].
@@ -450,3 +457,35 @@ Section ConjLeaves.
         destruct rest; [reflexivity|discriminate].
   Qed.
 End ConjLeaves.
+
+(* ---------- the full statement and the part of it that is proved ---------- *)
+
+(* FULL statement (not proved in general; every T2 case of kind "ws" checks an instance of it,
+   together with implementation = model): on queries built only from shapes that are combined
+   per parent today ([wellscoped]), the mechanism returns exactly the parents the spec selects.
+   GAP: proved for conjunctions of term leaves (any mix of arrays, depths and top-level fields:
+   [nested_search_correct_partial]); disjunction / boolean nodes and compound conjuncts (whose
+   searchers emit sub-documents of several depths) are covered by T2 only.  Outside [wellscoped]
+   the statement is false: see nested_bool_refuted & co. in Nested/Proofs.v. *)
+Definition nested_search_correct_wellscoped_stmt : Prop :=
+  forall docs q, wellscoped q = true -> model_search docs q = Some (sem_nested docs q).
+
+Lemma conj_leaves_wellscoped leaves : leaves <> [] -> wellscoped (QConj (map leafq leaves)) = true.
+Proof.
+  intro Hne. cbn [wellscoped]. replace (is_nil (map leafq leaves)) with false by (destruct leaves; [contradiction|reflexivity]).
+  cbn [negb andb]. clear. induction leaves as [|l ls IH]; cbn; auto.
+Qed.
+
+Theorem nested_search_correct_partial docs leaves :
+  leaves <> [] ->
+  wellscoped (QConj (map leafq leaves)) = true /\
+  model_search docs (QConj (map leafq leaves)) = Some (sem_nested docs (QConj (map leafq leaves))).
+Proof. intro Hne. split; [apply conj_leaves_wellscoped, Hne|apply conj_leaves_search, Hne]. Qed.
+
+Example nested_search_correct_partial_ex :
+  let docs := [mkDoc 1 (Node [([116], [[120]])] [([105], [Node [([99], [[114]])] []; Node [([122], [[115]])] [([117], [Node [([107], [[97]])] []])]])]);
+               mkDoc 2 (Node [([116], [[120]])] [([105], [Node [([99], [[114]]); ([122], [[115]])] [([117], [Node [([107], [[97]])] []])]])])] in
+  let leaves : list leaf := [([[105]], [99], [114]); ([[105]; [117]], [107], [97])] in
+  leaves <> [] /\ model_search docs (QConj (map leafq leaves)) = Some [2] /\
+  sem_nested docs (QConj (map leafq leaves)) = [2] /\ sem_flat docs (QConj (map leafq leaves)) = [1; 2].
+Proof. cbn zeta. split; [discriminate|]. repeat split; vm_compute; reflexivity. Qed.
